@@ -601,10 +601,12 @@ class Subspace(IdealPoint):
     def _data_with_dual(self):
         midpoints = np.sum(self.ideal_basis, axis=-2) / self.ideal_basis.shape[-2]
 
-        poincare_ctr, poincare_rad = self.sphere_parameters(model=Model.POINCARE)
-        spacelike_guess = Point(poincare_ctr, model=Model.KLEIN).coords(
-            model=Model.PROJECTIVE
-        )
+        # a vector in the Minkowski-orthogonal complement of the
+        # subspace (the center of the Poincare sphere is not usable:
+        # it is infinite for subspaces through the origin)
+        spacelike_guess = utils.kernel(
+            self.ideal_basis @ self.minkowski
+        )[..., 0]
 
         to_orthogonalize = np.concatenate(
             [np.expand_dims(midpoints, axis=-2),
